@@ -101,6 +101,20 @@ def step (op impl : String) : String × Verdict :=
         else if isPrefix && (impl.splitOn "|end=err ErrDisconnectInvalidMessageLength").length > 1 then (impl, .hold)
         else (m ++ " [property: a bad length prefix must disconnect the peer]", .fail)
     | _, _ => ("bad-op", .unknown)
+  | ["recv", max, cs] =>
+    -- the whole receive path (readLoop, receiveMessage, convertToMessage, the daemon messages' Handle) on a
+    -- well-formed burst: the messages queued for the event loop, looked at after the burst, re-encode to the frames
+    match max.toNat?, parseChunks cs with
+    | some max, some chunks =>
+      if impl.startsWith "panic" || impl == "hang" then ("delivered", .fail) else
+      match decodeData max chunks.flatten with
+      | .ok (ms, _) =>
+        -- PongMessage.Handle queues nothing for the event loop (gnet has already updated LastReceived)
+        let m := showFrames ((ms.map id).filter (fun f => hexOf (f.take 4) != "504f4e47")) ++ "|end=idle"
+        if impl == m then (m, .hold)
+        else (m ++ " [property: the receiver delivers exactly the sequence of messages sent, in order]", .fail)
+      | .error _ => (impl, .unknown)
+    | _, _ => ("bad-op", .unknown)
   | ["conv", h] =>
     match parseBytes h with
     | some b => stepConv b impl
